@@ -141,8 +141,9 @@ func apiKind(api string) string {
 // emit writes the trace of one attempt (one event per observable action of the specification).
 func emit(t *rt.Trace, sc scen, a *attempt, o *outcome, attemptNo int) {
 	tp := a.topo()
-	t.Reset(rt.M{"pipe": sc.Pipe, "topo": tp, "api": sc.Stop, "kind": apiKind(sc.Stop), "stall": sc.Stall, "release": sc.Release,
-		"fail": sc.Fail, "n": sc.N, "racing": sc.Racing, "cap": 1000, "attempt": attemptNo,
+	// (all keys sort after "ev": verifylib cuts traces at lines that START with {"ev":"Reset")
+	t.Reset(rt.M{"pipe": sc.Pipe, "topo": tp, "stopApi": sc.Stop, "kind": apiKind(sc.Stop), "stall": sc.Stall, "release": sc.Release,
+		"fail": sc.Fail, "n": sc.N, "racing": sc.Racing, "slots": 1000, "try": attemptNo,
 		"stallKind": a.stallKind, "stallNode": a.stallNode})
 	var first, racing []int
 	for _, s := range o.Accepted {
@@ -288,8 +289,8 @@ func Run(r *rt.Run) error {
 		if crashes > 20 {
 			return fmt.Errorf("more than 20 process crashes, giving up (last: %s)", sc.key())
 		}
-		crashT.Reset(rt.M{"pipe": sc.Pipe, "api": sc.Stop, "kind": apiKind(sc.Stop), "stall": sc.Stall, "release": sc.Release,
-			"fail": sc.Fail, "n": sc.N, "racing": sc.Racing, "cap": 1000, "attempt": att, "stallKind": "", "stallNode": "",
+		crashT.Reset(rt.M{"pipe": sc.Pipe, "stopApi": sc.Stop, "kind": apiKind(sc.Stop), "stall": sc.Stall, "release": sc.Release,
+			"fail": sc.Fail, "n": sc.N, "racing": sc.Racing, "slots": 1000, "try": att, "stallKind": "", "stallNode": "",
 			"topo": rt.M{"kinds": []any{"pass"}, "edges": []any{rt.M{"from": 0, "to": 1, "f": "all"}}, "outf": []any{"none"},
 				"outs": rt.M{}, "nodes": []any{"?"}}})
 		crashT.Event("StopCall", rt.M{"api": sc.Stop})
